@@ -18,7 +18,7 @@ PID = 'C25'
 
 META = {
     'technique': 'constant evaluation of the duplicated range-coder macros in one witness translation unit per side (clang constant evaluator, real compile flags) + sibling agreement of normalised function bodies and of the interval-split sub-expressions extracted from the writer and the reader',
-    'text': 'Decides that the arithmetic writer and reader are instantiated with identical constants, identical CDF adaptation (rate schedule table included) and identical interval-split scaling - the duplicated definitions whose divergence silently breaks every round trip. Does not decide carry propagation, renormalisation or the tell/bit-count estimate (value-level).',
+    'text': 'Decides that the arithmetic writer and reader are instantiated with identical constants, identical CDF adaptation (rate schedule table included) and identical interval-split scaling - the duplicated definitions whose divergence silently breaks every round trip. Does not decide carry propagation, renormalisation or the tell/bit-count estimate (value-level). Also decided: the writer\'s byte and pre-carry buffers keep their contents when they grow (realloc of itself, or a fresh block sized and copied with the buffer\'s own element size).',
     'note': 'the two sides keep separate headers; the witness TUs include each side\'s own headers with that side\'s include paths',
     'ref': 'DESIGN.md section 5 C25',
 }
@@ -145,3 +145,89 @@ def run(P, rep, tier):
                'single definition' if len(files) == 1 else 'defined in %s: writer and reader may start from different tables' % files,
                nontrivial=True)
     rep.floor('C25.TABLES', 40)
+
+    # ---------------- GROW: the writer's byte buffer and pre-carry buffer grow while symbols are being coded; whatever was
+    # written so far must survive.  Every (re)allocation of one of those buffers is sized with at least its element size, every
+    # copy from / into one uses exactly its element size, and a buffer pointer is only ever replaced by realloc() of itself or by
+    # a block into which the old contents were copied.
+    enc_rec = P.record('OdEcEnc')
+    elem = {}
+    for x in enc_rec['fields']:
+        if x['t'].rstrip().endswith('*'):
+            base = x['t'].replace('*', '').replace('const', '').strip()
+            elem['OdEcEnc.' + x['n']] = {'uint8_t': 1, 'unsigned char': 1, 'uint16_t': 2, 'unsigned short': 2, 'uint32_t': 4}.get(base)
+    if 'OdEcEnc.precarry_buf' not in elem or 'OdEcEnc.buf' not in elem:
+        raise AnalysisBroken('OdEcEnc no longer has buf / precarry_buf')
+
+    def sizeof_lits(e):
+        return [a[1] for a in subexprs(e) if a[0] == 'l' and len(a) > 2 and a[2] and 'sizeof' in str(a[2])]
+
+    def buf_of(f, e):
+        """the writer buffer field an expression designates (directly or through a local assigned from it)"""
+        from engine.facts import last_field
+        e = strip(e)
+        lf = last_field(e)
+        if lf in elem:
+            return lf
+        if e and e[0] == 'v' and e[2] == 'l':
+            for ev in f.events(('decl', 'st')):
+                x = ev.get('e')
+                if x is None:
+                    continue
+                if ev['k'] == 'decl' and ev['n'] == e[1] and last_field(strip(x)) in elem:
+                    return last_field(strip(x))
+                if ev['k'] == 'st' and x[0] == 'a' and x[1] == '=' and pstr(strip(x[2])) == e[1] and last_field(strip(x[3])) in elem and strip(x[3])[0] == 'm':
+                    return last_field(strip(x[3]))
+        return None
+    ngrow = 0
+    for f in P.fns:
+        if f.nocfg or not f.file.endswith('EbBitstreamUnit.c'):
+            continue
+        for ev, n in f.calls(('realloc', 'memcpy', 'memmove', 'svt_memcpy_c')):
+            args = ev['e'][2]
+            if n == 'realloc' and len(args) >= 2:
+                b = buf_of(f, args[0])
+                if b:
+                    ngrow += 1
+                    ls = sizeof_lits(args[1])
+                    ok = bool(ls) and min(ls) >= elem[b]
+                    rep.ob('C25.GROW', '%s/realloc:%s' % (f.name, b), ok, f.loc(ev),
+                           'realloc of %s (element size %d) sized with element size %s: contents preserved by realloc' % (b, elem[b], ls))
+            elif n != 'realloc' and len(args) >= 3:
+                bs = [x for x in (buf_of(f, args[0]), buf_of(f, args[1])) if x]
+                for b in bs:
+                    ngrow += 1
+                    ls = sizeof_lits(args[2])
+                    ok = bool(ls) and all(l == elem[b] for l in ls)
+                    rep.ob('C25.GROW', '%s/copy:%s' % (f.name, b), ok, f.loc(ev),
+                           ('copy of %s uses its element size %d' % (b, elem[b])) if ok else
+                           ('%s has %d-byte elements but the copy length is computed with element size %s (%s): only part of the coded data survives the growth'
+                            % (b, elem[b], ls, pstr(strip(args[2]))[:60])))
+        # a buffer pointer replaced by something that is neither realloc(itself) nor a block the old contents were copied into
+        for ev in f.events(('st',)):
+            e = ev['e']
+            if e[0] != 'a' or e[1] != '=' or strip(e[2])[0] != 'm' or strip(e[2])[1] not in elem:
+                continue
+            b = strip(e[2])[1]
+            if f.name in ('svt_od_ec_enc_init',):
+                continue
+            rhs = strip(e[3])
+            src_ok = False
+            why = pstr(rhs)[:40]
+            if rhs[0] == 'v':
+                for e2 in f.events(('st', 'decl')):
+                    x = e2.get('e')
+                    if x is None:
+                        continue
+                    r2 = strip(x) if e2['k'] == 'decl' and e2['n'] == rhs[1] else (strip(x[3]) if e2['k'] == 'st' and x[0] == 'a' and x[1] == '=' and pstr(strip(x[2])) == rhs[1] else None)
+                    if r2 is not None and r2[0] == 'c':
+                        if callee_name(r2) == 'realloc' and buf_of(f, r2[2][0]) == b:
+                            src_ok = True
+                        elif callee_name(r2) in ('malloc', 'calloc'):
+                            cps = [c for c, nn in f.calls(('memcpy', 'memmove')) if pstr(strip(c['e'][2][0])) == rhs[1] and buf_of(f, c['e'][2][1]) == b and f.ev_dominates(c, ev)]
+                            src_ok = bool(cps)
+                            why = 'fresh block %s the old contents' % ('after copying' if cps else 'WITHOUT copying')
+            ngrow += 1
+            rep.ob('C25.GROW', '%s/replace:%s' % (f.name, b), src_ok, f.loc(ev),
+                   '%s is replaced by %s' % (b, 'realloc of itself / a block holding the old contents' if src_ok else why))
+    rep.floor('C25.GROW', 4)
